@@ -232,6 +232,9 @@ func runC13(r *Run) {
 		r.Check(okL, "C13.dump", fname(ls), list+" is loaded through its own adder", adder+"(element.Address, element.Amount)", "the loader books "+list+" into another table than the one it was dumped from", p.pos(ls.Pos()))
 	}
 	checkCycleAligned(r)
+	checkConsumeAlwaysBooks(r)
+	checkDumpLoadFields(r, "C13.dump", "(*data/rewards.RewardStore).dumpState", "(*data/rewards.RewardStore).loadState")
+	checkDumpLoadFields(r, "C13.dump", "(*data/rewards.RewardCumulativeStore).dumpState", "(*data/rewards.RewardCumulativeStore).loadState")
 	checkIntervalIndexSiblings(r)
 	r.Floor("C13.", 16)
 }
